@@ -38,13 +38,17 @@ func init() {
 
 func c10Gen(_ *rand.Rand, _ string, w *bufio.Writer) {
 	// the check script writes the op list from the classification; this is the fixed part
-	fmt.Fprintln(w, "case 0 race\nrace control none\nrace beacon treasuresByKeys\nrace treasure treasure")
+	fmt.Fprintln(w, "case 0 race\nrace control none\nrace beacon treasuresByKeys\nrace treasure treasure\nrace bucket byValue\nrace swampBuckets buckets")
 }
 
 func c10Scenario(strct string) string {
 	switch strct {
 	case "beacon", "treasure", "control":
 		return strct
+	case "bucket", "bucketPending":
+		return "bucket"
+	case "swamp", "swampBuckets", "swampClose":
+		return "swamp"
 	}
 	return ""
 }
@@ -69,7 +73,7 @@ func c10Run(in *bufio.Scanner, w *bufio.Writer) {
 		}
 		sc := c10Scenario(f[1])
 		if sc == "" {
-			fmt.Fprintf(w, "race %s %s error:no-scenario\n", f[1], f[2])
+			fmt.Fprintf(w, "race %s %s err:no-scenario\n", f[1], f[2])
 			continue
 		}
 		res, ok := cache[sc]
@@ -84,9 +88,9 @@ func c10Run(in *bufio.Scanner, w *bufio.Writer) {
 
 func c10Spawn(bin, scenario string) string {
 	if bin == "" {
-		return "error:HX_RACE_BIN-not-set"
+		return "err:HX_RACE_BIN-not-set"
 	}
-	ctx, cancel := context.WithTimeout(context.Background(), 90*time.Second)
+	ctx, cancel := context.WithTimeout(context.Background(), HxScale(240*time.Second))
 	defer cancel()
 	cmd := exec.CommandContext(ctx, bin, "run", "C10CHILD")
 	cmd.Stdin = strings.NewReader("scenario " + scenario + "\n")
@@ -100,13 +104,13 @@ func c10Spawn(bin, scenario string) string {
 	case strings.Contains(text, "WARNING: DATA RACE"), strings.Contains(text, "fatal error: concurrent map"):
 		return "detected"
 	case ctx.Err() != nil:
-		return "error:timeout"
+		return "err:timeout"
 	case err != nil:
-		return "error:child-failed"
+		return "err:child-failed"
 	case strings.Contains(text, "scenario-finished"):
 		return "clean"
 	}
-	return "error:no-marker"
+	return "err:no-marker"
 }
 
 // ---- child (race build) ----------------------------------------------------
@@ -140,7 +144,7 @@ func c10Child(in *bufio.Scanner, w *bufio.Writer) {
 	for i := 0; i < 50; i++ {
 		set(fmt.Sprintf("seed%03d", i), "v")
 	}
-	deadline := time.Now().Add(3 * time.Second)
+	deadline := time.Now().Add(HxScale(3 * time.Second)) // length of the workload, not a limit
 	var wg sync.WaitGroup
 	run := func(f func(i int)) {
 		wg.Add(1)
@@ -158,6 +162,42 @@ func c10Child(in *bufio.Scanner, w *bufio.Writer) {
 	case "treasure":
 		run(func(i int) { set("hot", fmt.Sprintf("v%d", i%7)) })
 		run(func(int) { get("hot") })
+	case "bucket":
+		// field-bucket index: patches (insert / update notifications), deletes and filtered selections that build and
+		// consult the bucket of field "status"
+		path := "status"
+		patch := func(k, v string) {
+			_, _ = rig.GW.PatchTreasures(context.Background(), &hydrapb.PatchTreasuresRequest{IslandID: 1, SwampName: swamp, CreateIfNotExist: true,
+				Patches: []*hydrapb.TreasurePatch{{Key: k, Ops: []*hydrapb.PatchOp{{Op: hydrapb.PatchOp_SET, Path: "status", Value: c11Mp(v)}}}}})
+		}
+		del := func(k string) {
+			_, _ = rig.GW.Delete(context.Background(), &hydrapb.DeleteRequest{Swamps: []*hydrapb.DeleteRequest_SwampKeys{{IslandID: 1, SwampName: swamp, Keys: []string{k}}}})
+		}
+		sel := func() {
+			_, _ = rig.GW.PatchExpiredTreasures(context.Background(), &hydrapb.PatchExpiredTreasuresRequest{IslandID: 1, SwampName: swamp, HowMany: 1,
+				Ops: []*hydrapb.PatchOp{{Op: hydrapb.PatchOp_SET, Path: "status", Value: c11Mp("x")}},
+				Filters: &hydrapb.FilterGroup{Logic: hydrapb.FilterLogic_AND, Filters: []*hydrapb.TreasureFilter{{
+					BytesFieldPath: &path, Operator: hydrapb.Relational_EQUAL, CompareValue: &hydrapb.TreasureFilter_StringVal{StringVal: "nomatch"}}}}})
+		}
+		patch("keep", "a")
+		run(func(i int) { patch(fmt.Sprintf("p%03d", i%40), []string{"a", "b", "c"}[i%3]) })
+		run(func(i int) { del(fmt.Sprintf("p%03d", (i*7)%40)) })
+		run(func(int) { sel() })
+		run(func(int) { sel() })
+	case "swamp":
+		// swamp-level state: the last key comes and goes (auto-destroy, re-summon) under readers and a filtered selection
+		path := "status"
+		run(func(i int) { set("only", fmt.Sprintf("v%d", i%5)) })
+		run(func(int) {
+			_, _ = rig.GW.Delete(context.Background(), &hydrapb.DeleteRequest{Swamps: []*hydrapb.DeleteRequest_SwampKeys{{IslandID: 1, SwampName: swamp + "x", Keys: []string{"only"}}}})
+		})
+		run(func(int) { getAll() })
+		run(func(int) {
+			_, _ = rig.GW.PatchExpiredTreasures(context.Background(), &hydrapb.PatchExpiredTreasuresRequest{IslandID: 1, SwampName: swamp, HowMany: 1,
+				Ops: []*hydrapb.PatchOp{{Op: hydrapb.PatchOp_SET, Path: "status", Value: c11Mp("x")}},
+				Filters: &hydrapb.FilterGroup{Logic: hydrapb.FilterLogic_AND, Filters: []*hydrapb.TreasureFilter{{
+					BytesFieldPath: &path, Operator: hydrapb.Relational_EQUAL, CompareValue: &hydrapb.TreasureFilter_StringVal{StringVal: "nomatch"}}}}})
+		})
 	default:
 		for i := 0; i < 200; i++ {
 			set(fmt.Sprintf("k%06d", i), "v")
